@@ -127,7 +127,10 @@ is translated for any statement list without `return` / `break` / `continue`: th
 raise* (this is what makes the general form sound; without `raise_state` only the single pure-state assignment above is
 accepted).  `C` is `Exception` (every Python exception: `Py.Err.isPython`, i.e. not the translator's own `.fuel` /
 `.alias`), `SyntaxError`, `ValueError` or `RuntimeError` (the classes that map to one `Py.Err` each); `x` must be a
-declared local of type `Py.Err` and receives the exception.  Not combined with `alias_last` / `self_call`.
+declared local of type `Py.Err` and receives the exception.  Not combined with `self_call`.  With `alias_last` the reads
+and updates of the aliased object (`Py.aliasLast σ.x σ.l`, an expression) are evaluated by `Py.inState σ` like every other
+expression that can raise: an `AttributeError` on `None` (or the translator's `.alias`) carries the record as it is there.
+An in-place `np.nditer` loop needs nothing extra (its rows are written back by the recursive call of the loop function).
 
 `bool(e)` is the truth value of `e` (as in a condition).
 
@@ -401,8 +404,8 @@ class Fn:
             if isinstance(n, ast.Starred) and isinstance(n.value, ast.GeneratorExp):
                 self.genexp_ok.add(id(n.value))
         self.rs = bool(profile.get("raise_state"))
-        if self.rs and (profile.get("alias_last") or profile.get("self_call")):
-            raise Untranslatable("raise_state cannot be combined with alias_last / self_call")
+        if self.rs and profile.get("self_call"):
+            raise Untranslatable("raise_state cannot be combined with self_call")
 
     # ---------------------------------------------------------------- state at a raise (`raise_state`)
     def lift(self, term):
@@ -1168,7 +1171,7 @@ class Fn:
                     sets.append(f"{tg.id} := v.{i + 1}")
                 if e.pure:
                     return f"let v := {e.term}\nlet σ := {{ σ with {', '.join(sets)} }}\n{after()}"
-                return f"{e.term} >>= fun v =>\nlet σ := {{ σ with {', '.join(sets)} }}\n{after()}"
+                return f"{self.lift(e.term)} >>= fun v =>\nlet σ := {{ σ with {', '.join(sets)} }}\n{after()}"
             if isinstance(t, ast.Tuple) and all(isinstance(e, ast.Name) and e.id in self.locals for e in t.elts):
                 # targets are mutable locals: a sequence of ordinary assignments
                 v = s.value
@@ -1218,7 +1221,7 @@ class Fn:
                 cont = self.cs(rest[1:], k, loopk, brk)
                 if e.pure:
                     return f"let σ := {{ σ with {lst} := {app(paren(e.term))}, {x} := Py.Alias.live{others} }}\n{cont}"
-                return f"{e.term} >>= fun v =>\nlet σ := {{ σ with {lst} := {app('v')}, {x} := Py.Alias.live{others} }}\n{cont}"
+                return f"{self.lift(e.term)} >>= fun v =>\nlet σ := {{ σ with {lst} := {app('v')}, {x} := Py.Alias.live{others} }}\n{cont}"
             if isinstance(t, ast.Name) and t.id in self.p.get("rebind", {}) and t.id not in self.rebound:
                 e = self.ce(s.value)
                 self.rebound[t.id] = self.p["rebind"][t.id]
@@ -1264,8 +1267,8 @@ class Fn:
                     raise Untranslatable(f"attribute {t.attr} has type {fty}, assigned {e.ty}")
                 wrap = (lambda v: f"(some {v})") if opt else (lambda v: v)
                 if e.pure:
-                    return f"{self.alias_get(x)} >>= fun o =>\n{self.alias_set(x, '{ o with ' + fld + ' := ' + wrap(paren(e.term)) + ' }')}\n{after()}"
-                return f"{e.term} >>= fun v =>\n{self.alias_get(x)} >>= fun o =>\n{self.alias_set(x, '{ o with ' + fld + ' := ' + wrap('v') + ' }')}\n{after()}"
+                    return f"{self.lift(self.alias_get(x))} >>= fun o =>\n{self.alias_set(x, '{ o with ' + fld + ' := ' + wrap(paren(e.term)) + ' }')}\n{after()}"
+                return f"{self.lift(e.term)} >>= fun v =>\n{self.lift(self.alias_get(x))} >>= fun o =>\n{self.alias_set(x, '{ o with ' + fld + ' := ' + wrap('v') + ' }')}\n{after()}"
             if isinstance(t, ast.Attribute):
                 fld = ast.unparse(t).replace(".", "_")
                 if fld in self.locals:
@@ -1363,8 +1366,8 @@ class Fn:
                 if "_" not in e.ty and e.ty != elem_type(fty):
                     raise Untranslatable(f"attribute {f.value.attr} has type {fty}, appended {e.ty}")
                 if e.pure:
-                    return f"{self.alias_get(x)} >>= fun o =>\n{self.alias_set(x, '{ o with ' + fld + ' := o.' + fld + ' ++ [' + e.term + '] }')}\n{after()}"
-                return f"{self.alias_get(x)} >>= fun o =>\n{e.term} >>= fun v =>\n{self.alias_set(x, '{ o with ' + fld + ' := o.' + fld + ' ++ [v] }')}\n{after()}"
+                    return f"{self.lift(self.alias_get(x))} >>= fun o =>\n{self.alias_set(x, '{ o with ' + fld + ' := o.' + fld + ' ++ [' + e.term + '] }')}\n{after()}"
+                return f"{self.lift(self.alias_get(x))} >>= fun o =>\n{self.lift(e.term)} >>= fun v =>\n{self.alias_set(x, '{ o with ' + fld + ' := o.' + fld + ' ++ [v] }')}\n{after()}"
             if isinstance(f, ast.Attribute) and f.attr == "append" and len(call.args) == 1 and isinstance(f.value, ast.Name):
                 if id(s) in self.alias_pairs:
                     raise Untranslatable("alias_last: the append of an alias pair was reached on its own")
